@@ -3,6 +3,7 @@ package main
 import (
 	"fmt"
 	"net/url"
+	"strings"
 
 	"verif/internal/prng"
 	"verif/internal/sim"
@@ -37,6 +38,45 @@ func withCtx(m M) M {
 	for k, v := range m {
 		c[k] = v
 	}
+	return c
+}
+
+// aliasDoc rewrites a document (given without @context) for a context that
+// gives the ActivityStreams vocabulary the alias "as" - the one alias form
+// the decoder honours: {"<vocabulary>": "as"} - with every type and member
+// name prefixed, at every depth.
+func aliasDoc(m M) M {
+	var walk func(v interface{}) interface{}
+	walk = func(v interface{}) interface{} {
+		switch x := v.(type) {
+		case map[string]interface{}:
+			c := map[string]interface{}{}
+			for k, vv := range x {
+				switch {
+				case k == "id" || k == "@context" || strings.Contains(k, ":"):
+					c[k] = vv
+				case k == "type":
+					if ts, ok := vv.(string); ok {
+						c[k] = "as:" + ts
+					} else {
+						c[k] = vv
+					}
+				default:
+					c["as:"+k] = walk(vv)
+				}
+			}
+			return c
+		case []interface{}:
+			l := make([]interface{}, len(x))
+			for i, e := range x {
+				l[i] = walk(e)
+			}
+			return l
+		}
+		return v
+	}
+	c := M(walk(m).(map[string]interface{}))
+	c["@context"] = M{AS: "as"}
 	return c
 }
 
